@@ -217,13 +217,18 @@ def settle : Nat → Coarse → Coarse
 inductive Ev | start (i : Nat) | release (i : Nat)
 deriving Repr
 
+/-- An event that does not apply in the current state (the thread is already running, or is not parked
+because it finished or is blocked in the mutex) is skipped, so one event list can be run against
+different versions of the code; an index outside the thread set is an error. -/
 def applyEv (c : Coarse) : Ev → Option Coarse
   | .start i =>
-    if c.started.contains i || i ≥ c.s.ths.length then none
+    if i ≥ c.s.ths.length then none
+    else if c.started.contains i then some c
     else some (settle (measure c.s + 1) { c with started := i :: c.started })
   | .release i =>
-    if c.parked.contains i then some (settle (measure c.s + 1) { c with parked := c.parked.erase i })
-    else none
+    if i ≥ c.s.ths.length then none
+    else if c.parked.contains i then some (settle (measure c.s + 1) { c with parked := c.parked.erase i })
+    else some c
 
 /-- after the scripted events: release every parked thread (lowest index first) until nothing is parked -/
 def drain : Nat → Coarse → Coarse
